@@ -102,11 +102,40 @@ pub fn run(ctx: &Ctx) {
     }
     let driver = format!("{}/py/c14_driver.py", crate::ev::root());
     let py = std::env::var("VERIF_PYTHON").unwrap_or_else(|_| "python3".into());
-    let st = std::process::Command::new(&py).args([&driver, &pydir, &cases_path, &results_path]).output();
-    match st {
-        Ok(o) if o.status.success() => {}
-        Ok(o) => return run.machinery_error(format!("python driver failed: {:?} {}", o.status, String::from_utf8_lossy(&o.stderr).chars().take(500).collect::<String>())),
-        Err(e) => return run.machinery_error(format!("cannot start {py}: {e}")),
+    // two interpreter processes over the same cases, one in file order and one in reverse order: whatever the
+    // extension keeps between calls (statics, caches) sees two different histories
+    let results_rev_path = format!("{cache}/c14_results_rev_{}.jsonl", std::process::id());
+    let fwd = std::process::Command::new(&py).args([&driver, &pydir, &cases_path, &results_path]).spawn();
+    let rev = std::process::Command::new(&py).args([&driver, &pydir, &cases_path, &results_rev_path, &"reverse".to_string()]).spawn();
+    for (name, child) in [("forward", fwd), ("reverse", rev)] {
+        match child.and_then(|c| c.wait_with_output()) {
+            Ok(o) if o.status.success() => {}
+            Ok(o) => return run.machinery_error(format!("python driver ({name}) failed: {:?}", o.status)),
+            Err(e) => return run.machinery_error(format!("cannot start {py}: {e}")),
+        }
+    }
+    {
+        let a = std::fs::read_to_string(&results_path).unwrap_or_default();
+        let b = std::fs::read_to_string(&results_rev_path).unwrap_or_default();
+        let (la, lb): (Vec<&str>, Vec<&str>) = (a.lines().collect(), b.lines().collect());
+        if la.len() != lb.len() {
+            return run.machinery_error("python driver: forward and reverse runs returned different numbers of results".into());
+        }
+        let mut differing = 0;
+        let mut first: Option<(String, String)> = None;
+        for (x, y) in la.iter().zip(&lb) {
+            run.eval();
+            if x != y {
+                differing += 1;
+                if first.is_none() {
+                    first = Some((x.to_string(), y.to_string()));
+                }
+            }
+        }
+        if let Some((x, y)) = first {
+            run.violation(viol("C14", "py", "python-result-depends-on-call-order-within-the-process".into(), &[], &Cfg::new(0), "", json!({"differing_cases": differing, "forward": x.chars().take(400).collect::<String>(), "reverse": y.chars().take(400).collect::<String>()})));
+        }
+        let _ = std::fs::remove_file(&results_rev_path);
     }
     let text = std::fs::read_to_string(&results_path).unwrap_or_default();
     let results: Vec<Value> = text.lines().filter_map(|l| serde_json::from_str(l).ok()).collect();
